@@ -23,8 +23,8 @@ func VH_C12_Pairs() {
 	conf := vhConf(st)
 	conf.Storage.GC.GracePeriod = time.Minute
 	conf.Storage.GC.RepoUploadMax = 1
-	pair := vh.Choice("pair", 6)
-	names := []string{"write-vs-expiry-timer", "write-vs-count-eviction", "complete-vs-expiry-timer", "cancel-vs-expiry-timer", "request-vs-collection", "close-vs-request"}
+	pair := vh.Choice("pair", 7)
+	names := []string{"write-vs-expiry-timer", "write-vs-count-eviction", "complete-vs-expiry-timer", "cancel-vs-expiry-timer", "request-vs-collection", "close-vs-request", "close-vs-collection-tick"}
 	vh.Tag("pair", names[pair])
 	if pair >= 4 {
 		conf.Storage.GC.Frequency = time.Second
@@ -81,6 +81,15 @@ func VH_C12_Pairs() {
 		// shutdown while a request is in flight and the collector is ticking
 		vh.Preempt(switches)
 		vh.Go(func() { vhPutManifest(s, "a", "t", types.MediaTypeOCI1Manifest, []byte("{")) })
+		vh.Go(func() { _ = s.Close() })
+	case 6:
+		// shutdown while the collection ticker fires
+		vh.Preempt(switches)
+		vh.Go(func() {
+			for _, t := range vclock.Tickers() {
+				t.Tick()
+			}
+		})
 		vh.Go(func() { _ = s.Close() })
 	}
 	vh.Join()
